@@ -11,8 +11,9 @@ priority hold in every reachable state of the pipeline (queue_contract, take_pri
 
 Part 2 (model/ConcLinkR.v, proofs/ConcLink_rounds.v) - rounds link: Protocol.v refines part A of Determinism.v
 (protocol_refines_determinism); the contigs recorded per barrier round by Protocol's ghost `rounds` are the ones C04's
-rounds_as_intended predicts (rounds_link); the multi-file scripts of the two models correspond (multifile_match); hence
-every maximal multi-file run terminates (C05) AND yields the same archive parts (C04): terminating_and_deterministic.
+rounds_as_intended predicts (rounds_link); the multi-file and the single-file scripts of the two models correspond
+(multifile_match, singlefile_match); hence every maximal run terminates (C05) AND yields the same archive parts (C04):
+terminating_and_deterministic, terminating_and_deterministic_singlefile.
 
 Proof-only check: no separate correspondence run.  The three models are tied to the Rust code by the checks of C04, C05
 and C06 (trace replay through the extracted step functions); this check adds no new model of the code."""
@@ -22,7 +23,7 @@ AREAS = ["determinism"]
 NO_MODEL_RUN = True
 THEOREMS = ["rank_order_embedding", "queue_refinement_step", "queue_refinement", "queue_refinement_reachable",
             "queue_contract", "take_priority", "protocol_refines_determinism", "rounds_link", "multifile_match",
-            "terminating_and_deterministic"]
+            "terminating_and_deterministic", "singlefile_match", "terminating_and_deterministic_singlefile"]
 RULE = ("proof-only sub-check of C05: bin/check rebuilds props/C05L.vo, re-runs coqc on props/C05L.v and requires 'Closed "
         "under the global context' under every pinned theorem. Non-vacuity Examples (vm_compute on closed terms): "
         "rank_nonvacuous; refinement_nonvacuous (a concrete 7-step Protocol trace with a push sleeping in not_full.wait, "
@@ -30,7 +31,8 @@ RULE = ("proof-only sub-check of C05: bin/check rebuilds props/C05L.vo, re-runs 
         "in the projection); overflow_outside_contract (sizes summing to 2^64: Protocol.v admits, Queue.v traps - the domain "
         "hypothesis script_bounded is needed); part2_nonvacuous (two files, 2 workers / capacity 5 vs 3 workers / capacity "
         "1000: both Protocol runs reach a final state, the recorded rounds are the two files, every hypothesis of rounds_link "
-        "and terminating_and_deterministic holds). No generated cases")
+        "and terminating_and_deterministic holds); singlefile_nonvacuous (C04's witness input, pack 2, 1 worker / capacity 1000 "
+        "vs 3 workers / capacity 1: both runs final, same 5 rounds). No generated cases")
 TRUSTED = ["nothing new is modelled: Queue.v, Protocol.v, Determinism.v are the models of C06, C05, C04 (tied to the Rust code "
            "by those checks); ConcLink.v / ConcLinkR.v contain only the projections and the vocabulary of the statements",
            "Protocol.v's ghost `rounds` / `rawbuf` bookkeeping (what worker 0 drains at a barrier) is what "
@@ -43,9 +45,9 @@ ASSUMPTIONS = ["part 1: old_rule = false (the repaired push loop), at least one 
                "close) and C04's wf_script; for terminating_and_deterministic the hypotheses of C04.multifile_deterministic "
                "(priority bound 2*contigs + 4 < i32::MAX - 1_000_000, distinct (sample, contig) keys, streams of distinct "
                "group buffers disjoint, final packs on distinct streams)",
-               "single-file mode is not linked (missing lemma: compile_go true / push_all true correspondence through the "
-               "pack-boundary branch, see the comment singlefile_match_partial in props/C05L.v); rounds_link and "
-               "protocol_refines_determinism are mode independent"]
+               "single-file mode (singlefile_match, terminating_and_deterministic_singlefile; proofs/ConcLink_single.v): the "
+               "current pack-boundary rule (Determinism.current_rule, read by the translator), samples contiguous, same pack "
+               "size on both sides; rounds_link and protocol_refines_determinism are mode independent"]
 
 
 def gen_cases(rng, tier):
